@@ -1,4 +1,4 @@
-import Percival.Proofs.DsAns
+import Percival.Proofs.TokText
 import Percival.Proofs.HeapStep
 import Percival.Driver.Heap
 import Percival.Driver.Heapmon
@@ -12,39 +12,15 @@ import Percival.Driver.Heapmon
 `C13.run_ops_accepted` feeds to the monitor.  Number printing / reading, the `,`-separated id lists
 (`String.split` with a character pattern) and the words `none` / `-` included.  Not covered: the cut of the printed
 line at ` | ` and at the spaces (`Driver/Loop.loopMon`, `tools/vlib.py`); no token contains a space (`l1Toks_no_space`).
-Number / splitting lemmas from `Proofs/DsAns.lean`.
+Number / splitting lemmas from `Proofs/DsAns.lean`, `Proofs/TokText.lean`.
 -/
 namespace Percival.Proofs.HeapAns
-open Percival Percival.Driver Percival.Spec.PQ Percival.Model.HeapStep Percival.Proofs.DsAns
+open Percival Percival.Driver Percival.Spec.PQ Percival.Model.HeapStep Percival.Proofs.DsAns Percival.Proofs.TokText
 open Percival.Driver.Heap Percival.Driver.Heapmon
 
 theorem splitCh_eq : @Heapmon.splitCh = @Dsmon.splitCh := rfl
 
-/-! ## printed numbers -/
-
-theorem nat_no' (n : Nat) (c : Char) (hc : c.isDigit = false) : c ∉ (toString n).toList := by
-  intro h; rw [nat_chars n c h] at hc; cases hc
-
-theorem int_no' (i : Int) (c : Char) (hc : c.isDigit = false) (hm : c ≠ '-') : c ∉ (toString i).toList := by
-  intro h
-  rcases int_chars i c h with h | h
-  · rw [h] at hc; cases hc
-  · exact hm h
-
-theorem nat_ne_none (n : Nat) : toString n ≠ "none" := by
-  intro h
-  exact nat_no' n 'n' (by decide) (by rw [h]; decide)
-
-theorem int_ne_none (i : Int) : toString i ≠ "none" := by
-  intro h
-  exact int_no' i 'n' (by decide) (by decide) (by rw [h]; decide)
-
 /-! ## `,`-separated lists of numbers -/
-
-theorem mapM_toNat (ids : List Nat) : (ids.map toString).mapM String.toNat? = some ids := by
-  induction ids with
-  | nil => rfl
-  | cons x xs ih => simp only [List.map_cons, List.mapM_cons, nat_rt, ih]; rfl
 
 theorem intercalate_nats_ne_dash (ids : List Nat) : ",".intercalate (ids.map toString) ≠ "-" := by
   intro h
@@ -151,9 +127,7 @@ theorem stepOp_sameKind (s : St) (op : XOp) : sameKind op.toI (stepOp s op).2 :=
 
 theorem nat_sp (n : Nat) : ' ' ∉ (toString n).toList := nat_no' n ' ' (by decide)
 theorem int_sp (i : Int) : ' ' ∉ (toString i).toList := int_no' i ' ' (by decide) (by decide)
-theorem nat_sp' (n : Nat) : ' ' ∉ Nat.toDigits 10 n := by
-  have := nat_sp n
-  rwa [show toString n = n.repr from rfl, Nat.toList_repr] at this
+theorem nat_sp' (n : Nat) : ' ' ∉ Nat.toDigits 10 n := nat_no'' n ' ' (by decide)
 theorem int_sp' (i : Int) : ' ' ∉ i.repr.toList := int_sp i
 
 theorem ansToks_no_space (a : Ans) : ∀ t ∈ ansToks a, ' ' ∉ t.toList := by
